@@ -139,6 +139,61 @@ def replace_search_rule(prog, res, f, cont, elem_name_re, arg_name):
         res.ok('replace-search', inst, f.loc(dec['id']), 'appends iff no element has exactly the argument\'s name, otherwise writes at the matched index only', function=f.sig, expr='decision')
 
 
+def model_replace_or_append(f, cont, accessor):
+    """walk the function on models with 0..3 distinctly named elements (names over A, a, B) and an
+    argument named A or a: the stores must be exactly `append the argument` when no element has the
+    argument's name and otherwise `write at that element only`.
+    -> ('ok', rows) | ('mismatch', text) | ('undecided', why)"""
+    import itertools
+    import a7
+    R = Renderer(f)
+    rows = 0
+    for n, ARG in itertools.product(range(4), ('A', 'a')):
+        for combo in itertools.permutations(('A', 'a', 'B'), n):
+            model = {'this.%s.size' % cont: n, 'arg0._name': ARG, '#alias': {accessor: cont}, 'arg0._data_type': 2, 'arg0._parameters.size': 2}
+            for k, nm in enumerate(combo):
+                model['this.%s[%d]._name' % (cont, k)] = nm
+            st = {'track': 'this.' + cont}
+            try:
+                events, end, undec = a7.walk(f, model, follow_loops=True, state=st, max_steps=3000)
+            except a7.OutOfRange as e:
+                return 'mismatch', 'with %d element(s) named %s the function reads element %s' % (n, list(combo), e)
+            if end.startswith('undecided') or end == 'loop':
+                return 'undecided', 'a condition cannot be evaluated on the model (%s)' % (R.render(undec[-1][0])[:120] if undec else end)
+            acts = []
+            ev = st['ev']
+            # replay the events with the final evaluator is wrong for indices that change: indices are evaluated when met
+            for nid, val in st.get('acts', []):
+                acts.append(val)
+            want = [('at', combo.index(ARG))] if ARG in combo else [('append', 'arg0')]
+            got = sorted(set(acts))
+            rows += 1
+            if end != 'NEXIT' or got != want:
+                return 'mismatch', 'with %d element(s) named %s and an argument named %s the function ends in %s having done %s; specified: %s' % (
+                    n, list(combo), ARG, end, got or 'nothing', want)
+    return 'ok', rows
+
+
+def replace_or_append(prog, res, f, cont, elem_name_re, arg_name):
+    """the usual shapes are read off the syntax tree; anything else is decided on finite models"""
+    from result import Result as _R
+    tmp = _R('x', 'quick', '')
+    replace_search_rule(prog, tmp, f, cont, elem_name_re, arg_name)
+    if tmp.obs and all(o['verdict'] == 'ok' for o in tmp.obs):
+        res.obs.extend(tmp.obs)
+        return
+    accessor = {'_parameters': 'parameter', '_groups': 'group'}[cont]
+    v, info = model_replace_or_append(f, cont, accessor)
+    inst = '%s::%s replace-or-append' % (f.qname.split('::')[-2], f.name)
+    if v == 'ok':
+        res.ok('replace-search', inst, f.loc(), 'not one of the usual shapes; walked on %d finite models (0..3 distinctly named elements): writes the element of the same name in place, '
+               'otherwise appends the argument' % info, function=f.sig, expr='decision')
+    elif v == 'mismatch':
+        res.viol('replace-search', inst, f.loc(), info, function=f.sig, expr=(tmp.obs[0]['expr'] if len(tmp.obs) == 1 else 'decision'))
+    else:
+        res.undecided('replace-search', inst, f.loc(), 'the replace-or-append logic is not in a shape the rule reads and cannot be walked on finite models: %s' % info, function=f.sig, expr='match')
+
+
 def early_return_idiom(f, R, lf, cont, elem_name_re, arg_name):
     """for (i..) if (name(i) == arg.name) { <write at [i]>; return; }  push_back(arg)   -> True / None (unknown) / text (wrong)"""
     for n in f.all_nodes({'IfStmt'}):
@@ -397,9 +452,9 @@ def run(prog, tier):
                               'the string rule "leading dimension = longest string" as values'])
     allowed_effects_rule(prog, res)
     gp = prog.fn(G + '::parameter', ptypes=['const ezc3d::ParametersNS::GroupNS::Parameter &'])
-    replace_search_rule(prog, res, gp, '_parameters', r'^this\.parameter\(local:%s\)\._name$', 'arg0._name')
+    replace_or_append(prog, res, gp, '_parameters', r'^this\.parameter\(local:%s\)\._name$', 'arg0._name')
     pg = prog.fn(PS + '::group', ptypes=['const ezc3d::ParametersNS::GroupNS::Group &'])
-    replace_search_rule(prog, res, pg, '_groups', r'^this\.group\(local:%s\)\._name$', 'arg0._name')
+    replace_or_append(prog, res, pg, '_groups', r'^this\.group\(local:%s\)\._name$', 'arg0._name')
     edit_order_rule(prog, res)
     validate_first_rule(prog, res)
     longest_string_rule(prog, res)
